@@ -87,7 +87,7 @@ def _data(name, bools=True, maxlen=2):
        unbounded="integer data values (any int), bool data values",
        bounds="shots of <= 2 entries (quick) / 3 (thorough: ints only); tags from a pool of 6 (quick) / 9 (thorough) covering whole-register, "
               "indexed, non-matching (upper case, non-numeric index) and a 2-digit index; data shape int | bool | list of <= 2; "
-              "one task per tag of the first entry",
+              "one task per tag of the first entry; the shot is converted once before its last entry is appended and again afterwards",
        outside="longer shots, lists longer than 2, tags outside the pool's shapes, floats (rejected like any non-bit)",
        opts={"max_paths": 400000, "timeout_s": 3000})
 def register_bits_replay_semantics(first_tag):
@@ -98,7 +98,13 @@ def register_bits_replay_semantics(first_tag):
     for j in range(1, k):
         t = tags[sym.concretize(sym.int(f"tag{j}", 0, len(tags) - 1))]
         entries.append((t, _data(f"e{j}", rich, 2 if rich else 1)))
-    shot = QsysShot(entries)
+    # history: the shot is converted once before its last entry arrives (append), then again
+    shot = QsysShot(entries[:-1])
+    try:
+        shot.to_register_bits()
+    except ValueError:
+        pass
+    shot.append(*entries[-1])
     want, valid = _ref_register_bits(entries)
     sym.predicate("bool_valued_bit", _has_bool(entries))
     sym.predicate("duplicate_or_interleaved_register", _dup(entries))
@@ -112,6 +118,8 @@ def register_bits_replay_semantics(first_tag):
         eq, chars = _same_bits(got, want)
         sym.check("only_0_1_characters", chars)
         sym.check("equals_in_order_replay", sym.implies(valid, eq))
+        eq2, _ = _same_bits(QsysShot(list(entries)).to_register_bits(), want)
+        sym.check("shot_built_at_once_equals_replay", sym.implies(valid, eq2))
 
 
 @lemma("C19", bounds="the empty shot")
@@ -136,14 +144,14 @@ def _dup(entries):
     return len(set(names)) < len(names)
 
 
-@lemma("C19", bounds="<= 2 entries (quick) / 3 (thorough); data nested lists of depth <= 2 with <= 2 elements, bits symbolic", outside="deeper nesting")
+@lemma("C19", bounds="<= 3 entries (quick: the third shape only with scalar data; interleaved tags a, b, a included); data nested lists of depth <= 2 with <= 2 elements, bits symbolic", outside="deeper nesting")
 def collate_and_flatten():
     tags = ["a", "b", "a[0]"]
-    k = sym.concretize(sym.int("k", 0, P(2, 3)))
+    k = sym.concretize(sym.int("k", 0, 3))
     entries = []
     for j in range(k):
         t = tags[sym.concretize(sym.int(f"tag{j}", 0, 2))]
-        shape = sym.concretize(sym.int(f"shape{j}", 0, 2))
+        shape = sym.concretize(sym.int(f"shape{j}", 0, 2)) if (k < 3 or P(False, True)) else 0   # quick: three entries only as scalars
         if shape == 0:
             d = sym.int(f"v{j}", 0, 1)
         elif shape == 1:
